@@ -81,6 +81,7 @@ type C10Ghost struct {
 	Dir    int   `json:"dir"`
 	Closed bool  `json:"closed,omitempty"`
 	Sizes  []int `json:"sizes"`
+	Repeat int   `json:"repeat,omitempty"` // the Sizes are written this many times over (0 = once): many dropped frames
 }
 
 func (c C10Case) qlenOf(side int) int {
@@ -163,6 +164,14 @@ func genC10(t *rapid.T) C10Case {
 			}
 			return g
 		}), 1, 3).Draw(t, "ghosts")
+		// now and then a great many frames for ids nobody has opened at the receiver
+		if rapid.IntRange(0, 2).Draw(t, "gmany") == 0 {
+			g := &c.Ghosts[0]
+			for i := range g.Sizes {
+				g.Sizes[i] %= 64
+			}
+			g.Repeat = rapid.IntRange(1100, 3000).Draw(t, "gframes")/len(g.Sizes) + 1
+		}
 	}
 	if rapid.IntRange(0, 3).Draw(t, "reopen") == 0 {
 		n := rapid.IntRange(1, min(3, len(c.IDs))).Draw(t, "nreopen")
@@ -419,7 +428,8 @@ func runC10Once(c C10Case) (ev.Outcome, bool) {
 		go func() {
 			defer wg.Done()
 			defer r.recoverPanic("ghost writer")
-			for k, l := range g.spec.Sizes {
+			for k := 0; k < len(g.spec.Sizes)*max(g.spec.Repeat, 1); k++ {
+				l := g.spec.Sizes[k%len(g.spec.Sizes)]
 				if r.aborted.Load() {
 					return
 				}
@@ -964,6 +974,12 @@ func c10Classes(c C10Case) []string {
 		for _, g := range c.Ghosts {
 			if g.Closed {
 				cls = append(cls, "writes_to_id_closed_at_receiver")
+				break
+			}
+		}
+		for _, g := range c.Ghosts {
+			if len(g.Sizes)*max(g.Repeat, 1) > 1024 {
+				cls = append(cls, "over_1024_frames_to_unopened_ids")
 				break
 			}
 		}
